@@ -1,7 +1,8 @@
 ----------------------------- MODULE MixinsTrace -----------------------------
 (***************************************************************************)
 (* Batched trace validation for Mixins (code -> spec).  TRACE_FILE holds   *)
-(*   [ {cfg: {apis:[..], rulecode:{rpc: 0..2}, addl, own:[rpc..], layout,  *)
+(*   [ {cfg: {apis:[..], rulecode:{rpc: 0..2}, addl, dup, own:[rpc..],  *)
+(*            layout,                                                      *)
 (*            legacy, tmpl,                                                *)
 (*            transports:[..], clients:[..]},                              *)
 (*      events: [ {ev:"select", present: {Carrier: {sync:[rpc..],          *)
@@ -25,11 +26,11 @@ SetOf(s) == {s[i] : i \in 1..Len(s)}
 
 C(t) == Traces[t].cfg
 RulesOf(t) == [m \in RPCs |-> C(t).rulecode[m]]
-ResetFor(t) == /\ apis' = SetOf(C(t).apis) /\ rules' = RulesOf(t) /\ addl' = C(t).addl /\ own' = SetOf(C(t).own) /\ layout' = C(t).layout /\ transports' = SetOf(C(t).transports)
+ResetFor(t) == /\ apis' = SetOf(C(t).apis) /\ rules' = RulesOf(t) /\ addl' = C(t).addl /\ dup' = C(t).dup /\ own' = SetOf(C(t).own) /\ layout' = C(t).layout /\ transports' = SetOf(C(t).transports)
                /\ legacy' = C(t).legacy /\ tmpl' = C(t).tmpl /\ clients' = SetOf(C(t).clients)
                /\ phase' = "generated" /\ exposed' = NoneExposed /\ call' = NoCall
 TInit == /\ tid = 1 /\ l = 1 /\ TLCSet(1, 0) /\ TLCSet(2, <<0, 0>>)
-         /\ apis = SetOf(C(1).apis) /\ rules = RulesOf(1) /\ addl = C(1).addl /\ own = SetOf(C(1).own) /\ layout = C(1).layout /\ transports = SetOf(C(1).transports)
+         /\ apis = SetOf(C(1).apis) /\ rules = RulesOf(1) /\ addl = C(1).addl /\ dup = C(1).dup /\ own = SetOf(C(1).own) /\ layout = C(1).layout /\ transports = SetOf(C(1).transports)
          /\ legacy = C(1).legacy /\ tmpl = C(1).tmpl /\ clients = SetOf(C(1).clients)
          /\ phase = "generated" /\ exposed = NoneExposed /\ call = NoCall
 
